@@ -138,6 +138,7 @@ class Step(object):
         self.inflight = set()
         self.reg_expected = None      # slot index the result must be (register routing)
         self.transients = []          # objects created but not kept (checked by C02)
+        self.redo = None              # fn(target_obj, src_obj) repeating this step's library call
 
 
 def decode_index(ix):
@@ -172,6 +173,7 @@ class World(object):
         self.stats = {}
         self.halt = False
         self.pending_owner = []
+        self.shadowing = any(getattr(o, 'wants_shadow', False) for o in self.oracles)
 
     # ------------------------------------------------------------------ bookkeeping
     def new_cid(self):
@@ -406,6 +408,22 @@ class World(object):
         st.extra['pre_alias'] = {i: (self.slots[i].token, self.slots[i].pos) for i in self.live()}
         for o in self.oracles:
             o.before(self, st)
+        shadow = None
+        if st.redo is not None and depth == 0 and st.dest is not None and self.shadowing:
+            dobj = self.slots[st.dest].obj
+            if any(isinstance(c, SimCallback) and any('ops' in a for a in c.armed.values())
+                   for c in (dobj.callbacks or [])):
+                # a re-entrant callback may fire during this write: keep private copies of the
+                # destination (callbacks removed) and of the Fxp source, to repeat the same write
+                # afterwards WITHOUT the interleaving and compare (fault F4, DESIGN 5.4)
+                try:
+                    shadow = copy.deepcopy(dobj)
+                    shadow.callbacks = []
+                    ssrc = copy.deepcopy(self.slots[st.srcs[0]].obj) if st.srcs else None
+                    if ssrc is not None:
+                        ssrc.callbacks = []
+                except Exception:
+                    shadow = None
         self.stack.append(st)
         try:
             try:
@@ -434,6 +452,13 @@ class World(object):
                 st.exc_obj = e
         finally:
             self.stack.pop()
+        if shadow is not None and st.outcome == 'ok' and 'f4_site' in st.extra and self.slots[st.dest].alive:
+            try:
+                st.redo(shadow, ssrc)
+                st.extra['shadow'] = shadow
+                self.bump('reentrant_write_repeated_without_interleaving')
+            except Exception as e:
+                st.extra['shadow_exc'] = type(e).__name__
         if st.outcome != 'ok':
             self.bump('outcome_' + st.outcome)
             self.bump('exc_' + st.exc)
@@ -1043,8 +1068,10 @@ class World(object):
         st.store = Store('dest', vals=self._vals(val, fmt), route=op.get('via', 'call'),
                          modes_from=('slot', d), fmt_req=fmt)
         st.extra['val'] = val
-        yield
         via = op.get('via', 'call')
+        st.redo = (lambda t, src: t.set_val(V.carrier(val))) if via == 'set_val' else \
+            (lambda t, src: t(V.carrier(val)))
+        yield
         c = V.carrier(val)
         if via == 'set_val':
             r = self.obj(d).set_val(c)
@@ -1069,6 +1096,7 @@ class World(object):
         vals = (sh, [Q.unscale(c, o.n_frac) for c in flat])
         st.store = Store('dest', vals=vals, raw=True, route='set_val_raw', modes_from=('slot', d),
                          fmt_req=fmt)
+        st.redo = lambda t, src: t.set_val(V.carrier(op['val']), raw=True)
         yield
         st.ret = self.obj(d).set_val(V.carrier(op['val']), raw=True)
         self.fresh_buffer(d)
@@ -1084,6 +1112,7 @@ class World(object):
         st.store = Store('dest', vals=self._vals(op['val'], fmt), route='setitem',
                          modes_from=('slot', d), fmt_req=fmt, region=index)
         st.extra['val'] = op['val']
+        st.redo = lambda t, src: t.set_val(V.carrier(op['val']), index=index)
         yield
         c = V.carrier(op['val'])
         if op.get('via') == 'set_val':
@@ -1144,6 +1173,8 @@ class World(object):
             src = None
             st.store = Store('dest', vals=self._vals(srcd['val'], fmt), route='equal_val',
                              modes_from=('slot', d), fmt_req=fmt)
+        st.redo = (lambda t, so: t.equal(so)) if src is not None else \
+            (lambda t, so: t.equal(V.carrier(srcd['val'])))
         yield
         a = self.obj(src) if src is not None else V.carrier(srcd['val'])
         st.ret = self.obj(d).equal(a)
@@ -1161,6 +1192,7 @@ class World(object):
         st.srcs = [src]
         st.store = Store('dest', src=src, route='set_from_' + op.get('via', 'call'),
                          modes_from=('slot', d), fmt_req=fmt)
+        st.redo = (lambda t, so: t.set_val(so)) if op.get('via') == 'set_val' else (lambda t, so: t(so))
         yield
         if op.get('via') == 'set_val':
             st.ret = self.obj(d).set_val(self.obj(src))
@@ -1207,6 +1239,10 @@ class World(object):
                    o.n_frac if f is None else f)
         st.store = Store('dest', src=d, route='resize_dtype' if op.get('dtype') else 'resize',
                          modes_from=('slot', d), fmt_req=req)
+        if op.get('dtype') is not None:
+            st.redo = lambda t, so: t.resize(dtype=op['dtype'])
+        else:
+            st.redo = lambda t, so: t.resize(*self.fmt_args(op['fmt']))
         yield
         if op.get('dtype') is not None:
             self.obj(d).resize(dtype=op['dtype'])
